@@ -37,6 +37,7 @@ class Ctx:
         self.violations = []   # (replay_path, suffix)
         self.known = []        # strings
         self.notes = []
+        self.fingerprint = None
         os.makedirs(WORK, exist_ok=True)
         os.makedirs(REPLAYS, exist_ok=True)
         os.makedirs(EVIDENCE, exist_ok=True)
@@ -222,6 +223,14 @@ def write_evidence(ctx, gate, coverage, assumptions=None):
                                           "they are not compared and are not counted in evaluations")
     except ImportError:
         pass
+    if getattr(ctx, "fingerprint", None) is not None:
+        fp = dict(ctx.fingerprint)
+        for k in ("changed", "removed", "added"):
+            if k in fp and len(fp[k]) > 40:
+                fp[k] = fp[k][:40] + [f"… (+{len(fp[k]) - 40})"]
+        fp["note"] = ("normalised-AST hashes of every function of /repo/cola against harness/model_map.json; a change is not a "
+                      "violation, it escalates sampling (extra seeds) for the properties that depend on the function")
+        cov["source_fingerprint"] = fp
     cov["trusted_base"] = TRUSTED_BASE + list(cov.get("trusted_base_extra", []))
     cov.pop("trusted_base_extra", None)
     ev = {
@@ -235,12 +244,79 @@ def write_evidence(ctx, gate, coverage, assumptions=None):
         "violations": len(ctx.violations),
     }
     _validate_evidence(ev)
-    if ctx.replay:
-        # a replay run looks at one stored input: it must not overwrite the evidence of the last full run
+    if ctx.replay or os.environ.get("VERIF_NO_EVIDENCE") == "1":
+        # a replay run looks at one stored input, an escalation run is an extra sample of the same check: neither
+        # overwrites the evidence of the full run
         return ev
     with open(os.path.join(EVIDENCE, f"{ctx.prop}.json"), "w") as f:
         json.dump(ev, f, indent=1, default=str)
     return ev
+
+
+# properties whose checks regenerate shared Gen/*.lean files: their extra runs must not overlap with the main run
+_SEQUENTIAL_ESCALATION = {"C04", "C17", "C18", "C19"}
+
+
+def start_escalation(ctx):
+    """When a function this property depends on has changed (source fingerprint), the quick tier also runs the same check
+    with two more seeds (the seeds validated on the unchanged tree are 0..3).  Extra runs write no evidence; their
+    VIOLATION lines are passed through and counted.  Never on the unchanged tree, never for replays or thorough runs."""
+    if ctx.replay or ctx.thorough or os.environ.get("VERIF_NO_ESCALATE") == "1":
+        return []
+    seeds = [(ctx.seed + 1) % 4, (ctx.seed + 2) % 4]
+    env = dict(os.environ, VERIF_NO_ESCALATE="1", VERIF_NO_EVIDENCE="1")
+    jobs = []
+    for s in seeds:
+        e = dict(env, VERIF_SEED=str(s))
+        cmd = [sys.executable, os.path.join(ROOT, "harness", "run_check.py"), ctx.prop, "quick"]
+        if ctx.prop in _SEQUENTIAL_ESCALATION:
+            jobs.append(("deferred", s, cmd, e))
+        else:
+            out = open(os.path.join(WORK, f"escalation_{ctx.prop}_{s}.out"), "w")
+            jobs.append(("running", s, subprocess.Popen(cmd, cwd=ROOT, env=e, stdout=out, stderr=subprocess.STDOUT), out))
+    return jobs
+
+
+def join_escalation(ctx, jobs):
+    if not jobs:
+        return
+    summary = []
+    for job in jobs:
+        s = job[1]
+        path = os.path.join(WORK, f"escalation_{ctx.prop}_{s}.out")
+        try:
+            if job[0] == "deferred":
+                with open(path, "w") as out:
+                    rc = subprocess.run(job[2], cwd=ROOT, env=job[3], stdout=out, stderr=subprocess.STDOUT, timeout=3000).returncode
+            else:
+                rc = job[2].wait(timeout=3000)
+                job[3].close()
+        except Exception as e:  # an extra sample that cannot run is not a verdict
+            summary.append({"seed": s, "error": repr(e)[:200]})
+            continue
+        viol = 0
+        for ln in open(path, errors="replace"):
+            if ln.startswith("VIOLATION "):
+                viol += 1
+                print(ln.rstrip() + f"   [escalation seed {s}]", flush=True)
+                m = re.search(r"replay=(\S+)", ln)
+                ctx.violations.append(m.group(1) if m else path)
+            elif ln.startswith("KNOWN-FINDING:"):
+                m = re.match(r"KNOWN-FINDING: property=\S+ (\S+?):", ln)
+                key = (m.group(1),) if m else (ln.strip(),)
+                if key not in ctx.known:
+                    ctx.known.append(key)
+                    print(ln.rstrip(), flush=True)
+        summary.append({"seed": s, "rc": rc, "violations": viol})
+    # the evidence of the main run is already written: append the escalation summary to it
+    p = os.path.join(EVIDENCE, f"{ctx.prop}.json")
+    try:
+        ev = json.load(open(p))
+        ev["coverage"].setdefault("source_fingerprint", {})["escalation_runs"] = summary
+        ev["violations"] = len(ctx.violations)
+        json.dump(ev, open(p, "w"), indent=1, default=str)
+    except Exception:
+        pass
 
 
 def finish(ctx):
